@@ -3,6 +3,7 @@ package main
 import (
 	"fmt"
 	"go/types"
+	"os"
 	"sort"
 	"strings"
 
@@ -18,6 +19,68 @@ import (
 //        P(a) cannot also be a prefix of K(a', ...) for a' != a (e.g. a name that merely starts with a).
 // Both key constructors are executed symbolically on fresh arguments (same symbols for the same positions), their
 // results flattened into byte segments, and the two conditions checked on the segment lists.
+
+// (L3) An integer component that a prefix constructor leaves open is iterated over in byte order; the modules rely on
+//      that order being the numeric one (oldest batch first, lowest height first), so the component must be written
+//      big-endian at fixed width. A little-endian (or otherwise unrecognised but identified) encoding is reported.
+
+// rawKeyTheory: byte-order primitives, interpreted only while key constructors are executed for this audit.
+var rawKeyTheory = map[string]TheoryFn{}
+
+func init() {
+	put := func(name string) TheoryFn {
+		return func(x *Exec, f *Frame, st *State, c *CallInfo) Val {
+			b := UF(name, SBytes, c.T(2))
+			switch d := c.Args[1].(type) {
+			case *BufVal:
+				d.Parts = append(d.Parts, bufPart{Val: b})
+			case *BufView:
+				d.Buf.Parts = append(d.Buf.Parts, bufPart{Off: d.Lo, Val: b})
+			}
+			return nil
+		}
+	}
+	rawKeyTheory["(encoding/binary.bigEndian).PutUint64"] = put("be64")
+	rawKeyTheory["(encoding/binary.bigEndian).PutUint32"] = put("be32")
+	rawKeyTheory["(encoding/binary.bigEndian).PutUint16"] = put("be16")
+	rawKeyTheory["(encoding/binary.littleEndian).PutUint64"] = put("le64")
+	rawKeyTheory["(encoding/binary.littleEndian).PutUint32"] = put("le32")
+	rawKeyTheory["(encoding/binary.littleEndian).PutUint16"] = put("le16")
+}
+
+// byteOrderProblem: an integer argument of the key constructor that the prefix leaves open and that is written
+// little-endian.
+func byteOrderProblem(k []keySeg, nPrefix int) string {
+	for i := nPrefix; i < len(k); i++ {
+		bad := ""
+		var find func(t *Term)
+		find = func(t *Term) {
+			if t == nil || bad != "" {
+				return
+			}
+			if t.kind == tUF && strings.HasPrefix(t.Op, "le") && (t.Op == "le64" || t.Op == "le32" || t.Op == "le16") {
+				bad = t.String()
+				return
+			}
+			for _, a := range t.Args {
+				find(a)
+			}
+		}
+		find(k[i].t)
+		if bad != "" {
+			return fmt.Sprintf("the iterated integer component %s is written little-endian: byte order is not numeric order, so iteration no longer visits the keys in increasing order of that component", bad)
+		}
+	}
+	return ""
+}
+
+func segStrings(ss []keySeg) []string {
+	var out []string
+	for _, s := range ss {
+		out = append(out, s.t.String())
+	}
+	return out
+}
 
 type keySeg struct {
 	t        *Term
@@ -56,12 +119,19 @@ func (p *Program) staticKeyLayout(ld LoadSpec) []*Obligation {
 			}
 			ksegs, kerr := p.keySegments(kfn, fixed, nil)
 			psegs, perr := p.keySegments(pfn, fixed, fam.PrefixPos[pk])
+			if os.Getenv("GOVC_TRACE") != "" {
+				fmt.Fprintf(os.Stderr, "keylayout %s / %s: key %v (%s) prefix %v (%s)\n", fam.Name, lastName(pk), segStrings(ksegs), kerr, segStrings(psegs), perr)
+			}
 			switch {
 			case kerr != "" || perr != "":
 				// not analysable (branches, opaque parts): nothing is claimed, nothing is reported
 				o.Src = "key layout of " + fam.Name + " not analysable (" + kerr + perr + "): A-KEYS assumed"
 			default:
-				if why := layoutProblem(ksegs, psegs); why != "" {
+				why := layoutProblem(ksegs, psegs)
+				if why == "" {
+					why = byteOrderProblem(ksegs, len(psegs))
+				}
+				if why != "" {
 					o.Goal = False
 					o.Src = fmt.Sprintf("family %s: prefix constructor %s and key constructor %s: %s", fam.Name, lastName(pk), lastName(fam.KeyFunc), why)
 				} else {
